@@ -157,6 +157,7 @@ inductive Ev where
   | drvScrub
   | drvOp (sendOk : Bool)
   | drvOpClosed
+  | drvMiscClosed        -- the misc (certificate request) channel is closed: all handles are gone
   | drvResp
   -- environment
   | srvSend (f : Frame)
@@ -309,6 +310,8 @@ def step (s : St) (e : Ev) : Option (St × Obs) :=
             some ({ s2 with ops := modifyOp s2.ops i fun o => { o with mail := .ack }, sinkClosed := true }, .none)
   | .drvOpClosed =>
     if s.drv = .running ∧ s.opQ = [] ∧ s.handles = false then some (endDriver s .endedOk, .none) else none
+  | .drvMiscClosed =>
+    if s.drv = .running ∧ s.handles = false then some (endDriver s .endedOk, .none) else none
   | .drvResp =>
     if s.drv ≠ .running then none else
     match s.srvLog[s.pos]? with
